@@ -380,6 +380,11 @@ func (c C14) Run(t *tape.Tape, opt core.RunOpt) (res core.Result) {
 					plan.M = 1 + t.Draw(3)
 				}
 				r := iosim.NewReader(data, plan)
+				if t.Bool(1, 2) {
+					// short reads (a pipe, a network body): a Read returns fewer bytes
+					// than asked for long before the end
+					r.Chunk = 1 + t.Draw(40)
+				}
 				var rd io.Reader = r
 				var cl *iosim.Closer
 				if t.Bool(1, 4) {
